@@ -5,7 +5,7 @@ From Coq Require Import QArith.
 Require Extraction.
 Require Import ExtrOcamlBasic.
 Extraction "model.ml"
-  Qred clip_interval clip_len intervals_overlap clip_polygon area2 clipped_area2 convexb
+  Qred clip_interval clip_len intervals_overlap overlap_len clip_polygon area2 clipped_area2 convexb
   overlap_area2_in_cell ptranslate
   mkPlat mkPlaq subset_indices broadcast_args process_plot_args colours
   plot_vertices plot_edges arrow_of plaq_points plaq_polygons plot_plaquettes
